@@ -226,6 +226,20 @@ def intruder_during_wait(ctx):
     ctx.cov["traces_validated_against_impl"] += n2
     ctx.cov["drop_during_merge"] = {"runs": len(druns), "accepted": n2}
     log(f"[R] writer dropped while its merge thread is parked, new writer at once: {n2}/{len(druns)} runs accepted")
+    # the writer handed over to a second Index instance that asked for it (from another thread) while the first still held the
+    # lock: refused; a creation that reads meta.json / .managed.json BEFORE it holds the lock is parked there by the gate until the
+    # first writer has committed again and is gone - the writer it then builds is stale (its commits discard the last one)
+    from props import c02
+    hp = ctx.path("handover.ndjson")
+    vlib.run_bin("core_driver", ["gcrace", "--seed", ctx.seed + 79, "--runs", 0, "--manrace", 0, "--handover", 4 if ctx.quick else 40, "--out", hp], timeout=900)
+    hev = vlib.read_ndjson(hp)
+    nh = sum(1 for e in hev if e.get("ev") == "schedule" and e.get("realised"))
+    n3 = c02.validate_runs(ctx, [e for e in hev if e.get("ev") != "schedule"], "handover_api")
+    ctx.cov["traces_validated_against_impl"] += n3
+    ctx.cov["writer_handover_between_instances"] = {"runs": nh, "accepted": n3}
+    log(f"[R] writer handed over to a second instance that asked while the first held the lock: {nh} hand-overs, {n3} runs accepted by CoreTrace")
+    if nh == 0:
+        raise vlib.ToolError("the hand-over schedule was never realised")
 
 
 def binding_selftest(ctx, runs):
